@@ -52,6 +52,23 @@ mod verif_search {
                     panic!("VERIF-SEARCH-HIT C18/retrieve/a_seed_is_returned_only_to_a_caller_presenting_the_current_password history=[initialize(pw0); store(seed0, pw0) -> Ok; initialize(pw1) -> Ok; retrieve(seed0, pw0) -> Ok]");
                 }
             }
+            // directed history: a seed stored again under the same id replaces the previous one, also in this process
+            {
+                let dir = tempfile::TempDir::new().expect("tempdir");
+                let path = dir.path().join("store.enc");
+                let m = EncryptedKeyStorageManager::new(&path, SecurityLevel::Fast).expect("manager");
+                m.initialize(&pw(0)).await.expect("initialize");
+                let s1 = MasterSeed::generate().expect("seed");
+                let s2 = MasterSeed::generate().expect("seed");
+                m.store_master_seed("seed0", &s1, &pw(0)).await.expect("store");
+                let _ = m.retrieve_master_seed("seed0", &pw(0)).await;
+                m.store_master_seed("seed0", &s2, &pw(0)).await.expect("store");
+                match m.retrieve_master_seed("seed0", &pw(0)).await {
+                    Ok(s) if s.seed_material() == s2.seed_material() => {}
+                    Ok(_) => panic!("VERIF-SEARCH-HIT C18/retrieve/the_seed_returned_is_the_one_stored_last_under_that_id history=[store(seed0, S1, pw0) -> Ok; retrieve(seed0, pw0); store(seed0, S2, pw0) -> Ok; retrieve(seed0, pw0) -> Ok(a seed other than S2)]"),
+                    Err(_) => panic!("VERIF-SEARCH-HIT C18/retrieve/the_current_password_opens_every_stored_seed history=[store(seed0, S1, pw0); store(seed0, S2, pw0); retrieve(seed0, pw0) -> Err]"),
+                }
+            }
             // directed family: (password, seed id) pairs whose concatenations collide -- the boundary between the two
             // moved -- and near-miss passwords (prefix, extension, case): none of them may open a cached seed
             {
